@@ -105,7 +105,7 @@ def handle (st : St) (ws : List String) : St × String :=
       | none => (st, "bad-reg")
     | none => (st, "bad-op")
   | ["race", _, _] =>
-    -- by `C15.derivations_write_only_fresh` / `concurrent_results_schedule_independent` the model's answer is constant
+    -- by `derivations_write_only_fresh`, `no_data_race`, `factory_unchanged` (Properties/C15) the model's answer is constant
     (st, "race-free results-equal")
   | ["metric", s] => match dec s with
     | some s => (st, enc (metric s))
